@@ -154,9 +154,14 @@ def check_swap(rep, project, qual):
         elif same and sig[0] == "cross":
             ok, w = symeval.equivalent(sig[1], sig2[1])
             same = bool(ok)
+        opaque = sorted({x[1] for e_ in list(sig[1:]) + list(sig2[1:]) if isinstance(e_, tuple) and e_ and isinstance(e_[0], str)
+                         for x in sym.walk(e_) if x[0] == "opq" and (x[1].startswith("unmodelled") or x[1] == "config")})
         if same:
             rep.discharged("MI-SWAP", fi, s["node"], "block of D(S,T) equals the transposed block of D(T,S)",
                            derived=sym.show(sig[1])[:200] if len(sig) > 1 else None)
+        elif opaque:
+            rep.unmodelled("MI-SWAP", fi, s["node"], f"the block and its transposed counterpart contain values the evaluator did not "
+                                                     f"model ({', '.join(opaque)[:80]}): not compared")
         else:
             rep.refuted("MI-SWAP", fi, s["node"],
                         f"block differs from its transposed counterpart when the diagrams are exchanged: "
@@ -194,6 +199,14 @@ def run(project: Project, rep, tier: str):
         check_shift(rep, project, qual, kinds)
         check_swap(rep, project, qual)
         check_shortcuts(rep, project, qual)
+    # MI-DTYPE: representation independence of the distance's own input handling — no float store into an array typed by a diagram,
+    # no cast of one diagram to the dtype of the other (rules/dtype_rule.py) — over the entry point and the helpers it calls
+    from . import dtype_rule as _dt
+    from .oneshot import reachable_functions as _reach
+    _fns = _reach(project, [BN, WS])
+    if _fns:
+        _dt.run_on(project, rep, "MI-DTYPE", _fns)
+    rep.floor("MI-DTYPE", 1)
     rep.floor("MI-DEG", 6)
     rep.floor("MI-SHIFT", 6)
     rep.floor("MI-SWAP", 6)
